@@ -74,6 +74,63 @@ func c02(c *ev.Ctx) {
 		c.SampleEvery(i, func() interface{} { return map[string]interface{}{"script": script, "cond_fields": k} })
 	})
 
+	// operand-byte sweep: the last instruction of a branch / loop body / case arm carries
+	// an operand that runs through every opcode value (constant-pool position, argument
+	// count, literal); exactly the selected statements must still run
+	id := func(n string) gast.Expr { return gast.Ident{Name: n} }
+	il := func(v int64) gast.Expr { return gast.IntLit{V: v} }
+	tr := func(a ...gast.Expr) gast.Stmt { return gast.ExprStmt{X: gast.Call{Fn: "t", Args: a}} }
+	type sweep struct {
+		name string
+		p    gast.Program
+	}
+	var sweeps []sweep
+	for n := 0; n <= 60; n++ {
+		var pre []gast.Stmt
+		for k := 0; k < n; k++ {
+			pre = append(pre, gast.Assign{Name: fmt.Sprintf("k%d", k), X: il(0)})
+		}
+		args := make([]gast.Expr, n)
+		for k := range args {
+			args[k] = il(int64(k))
+		}
+		tails := map[string]gast.Stmt{
+			"incdec": gast.IncDec{Name: "cnt", Op: "++"},
+			"call":   gast.ExprStmt{X: gast.Call{Fn: "t", Args: args}},
+			"lit":    gast.ExprStmt{X: il(int64(n))},
+			"assign": gast.Assign{Name: "last", X: il(int64(n))},
+			"lookup": gast.ExprStmt{X: id("cnt")},
+		}
+		for tn, tail := range tails {
+			mk := func(body ...gast.Stmt) []gast.Stmt {
+				return append(append([]gast.Stmt{}, pre...), append([]gast.Stmt{gast.Assign{Name: "cnt", X: il(5)}}, body...)...)
+			}
+			sweeps = append(sweeps,
+				sweep{fmt.Sprintf("if-else/%s/%d", tn, n), gast.Program{Stmts: mk(gast.If{C: id("Flag"), Then: []gast.Stmt{tr(il(1)), tail}, HasElse: true, Else: []gast.Stmt{tr(il(2)), gast.Assign{Name: "missed", X: gast.BoolLit{V: true}}}}, tr(il(3), id("cnt")), gast.Return{X: id("cnt")})}},
+				sweep{fmt.Sprintf("else-if/%s/%d", tn, n), gast.Program{Stmts: mk(gast.If{C: id("Flag"), Then: []gast.Stmt{tail}, HasElse: true, ElseIf: true, Else: []gast.Stmt{gast.If{C: id("Other"), Then: []gast.Stmt{tr(il(2)), tail}, HasElse: true, Else: []gast.Stmt{tr(il(4))}}}}, tr(il(3), id("cnt")))}},
+				sweep{fmt.Sprintf("while/%s/%d", tn, n), gast.Program{Stmts: mk(gast.Assign{Name: "w", X: il(2)}, gast.While{C: gast.Infix{Op: ">", L: id("w"), R: il(0)}, Body: []gast.Stmt{gast.IncDec{Name: "w", Op: "--"}, tr(id("w")), tail}}, tr(il(3), id("cnt")))}},
+				sweep{fmt.Sprintf("switch/%s/%d", tn, n), gast.Program{Stmts: mk(gast.Switch{X: id("Sel"), Cases: []gast.Case{{Exprs: []gast.Expr{il(1), il(2)}, Body: []gast.Stmt{tr(il(1)), tail}}, {Default: true, Body: []gast.Stmt{tr(il(9)), tail}}, {Exprs: []gast.Expr{il(3)}, Body: []gast.Stmt{tr(il(2)), tail}}}}, tr(il(3), id("cnt")))}},
+				sweep{fmt.Sprintf("function/%s/%d", tn, n), gast.Program{Stmts: append([]gast.Stmt{gast.FuncDef{Name: "fn", Params: []string{"q"}, Body: []gast.Stmt{gast.If{C: id("q"), Then: []gast.Stmt{tr(il(1)), tail}, HasElse: true, Else: []gast.Stmt{tr(il(2))}}, tr(il(5))}}}, mk(gast.ExprStmt{X: gast.Call{Fn: "fn", Args: []gast.Expr{id("Flag")}}}, tr(il(3), id("cnt")))...)}})
+			if tn != "lit" && tn != "lookup" {
+				sweeps = append(sweeps, sweep{fmt.Sprintf("foreach/%s/%d", tn, n), gast.Program{Stmts: mk(gast.Foreach{Idx: "i", Var: "e", It: gast.ArrayLit{Els: []gast.Expr{il(7), il(8)}}, Body: []gast.Stmt{tr(id("i"), id("e")), tail}}, tr(il(3), id("cnt")))}})
+			}
+		}
+	}
+	c.ParFor(len(sweeps), func(i int) {
+		sw := sweeps[i]
+		sid := "opbyte/" + sw.name
+		if !c.Want(sid) {
+			return
+		}
+		objs := []map[string]model.Value{
+			{"Flag": model.Bool(true), "Other": model.Bool(false), "Sel": model.Int(2)},
+			{"Flag": model.Bool(false), "Other": model.Bool(true), "Sel": model.Int(3)},
+			{"Flag": model.Int(0), "Other": model.Int(0), "Sel": model.Int(7)}}
+		for _, noOpt := range []bool{false, true} {
+			judged := checkProgramAgainstModel(c, sid, "operand byte equal to an opcode (control flow)", sw.p, nil, objs, noOpt)
+			c.Case(gast.Text(sw.p)+fmt.Sprint(noOpt), judged > 0)
+		}
+	})
 	// fixed regression / probe cases
 	c02Probes(c)
 }
